@@ -323,22 +323,141 @@ func (h *hist) flush(now time.Time) {
 	h.ops = append(h.ops, fmt.Sprintf("Fl %s %d %s %s %s %s %d", nowT, ms, vu.Z(gap), tsv(h.base, st), tsv(h.base, cur), tsv(h.base, snd), l))
 }
 
+// shutdown: the REAL Agent.ShutdownFlusher + Agent.FlushAllData, a goroutine playing the preprocessor
 func (h *hist) flushAll() {
 	var bs []string
-	rec := func() {
-		if t, items, ok := h.q.Drain(); ok {
-			h.received(t, items)
-			bs = append(bs, fmt.Sprintf("(%s, %s)", tsv(h.base, t), itemsTerm(h.base, items)))
-		}
+	for _, b := range h.q.ShutdownAndFlushAllData() {
+		h.received(b.Time, b.Items)
+		bs = append(bs, fmt.Sprintf("(%s, %s)", tsv(h.base, b.Time), itemsTerm(h.base, b.Items)))
 	}
-	for i := int64(0); i < consts.QueueLen; i++ {
-		if h.q.ChanLen() != 0 {
-			rec()
-		}
-		h.q.Step(false)
-	}
-	rec()
 	h.ops = append(h.ops, "Fa ["+strings.Join(bs, "; ")+"]")
+}
+
+// end of every history: stop, flush everything, every accepted event delivered exactly once, ring empty
+func (h *hist) finish(o *vu.Out, input string, extraKinds ...string) {
+	h.stopped = true
+	h.ops = append(h.ops, "St")
+	h.flushAll()
+	nAcc := 0
+	for _, e := range h.evs {
+		if e.accepted {
+			nAcc++
+			if e.delivered != 1 {
+				h.fail("delivered_exactly_once", fmt.Sprintf("id=%d ts=%d res=%d delivered %d times", e.id, e.ts, e.res, e.delivered))
+			}
+		}
+	}
+	for idx := 0; idx < int(consts.QueueLen); idx++ {
+		if len(h.q.RingItems(idx)) != 0 {
+			h.fail("delivered_exactly_once", fmt.Sprintf("ring slot %d not empty after FlushAllData", idx))
+		}
+	}
+	input += fmt.Sprintf(" ops=%d accepted=%d", len(h.ops), nAcc)
+	term := fmt.Sprintf("CHist %d %d %d %d [%s]", h.base, h.hw[0], h.hw[1], h.stres, strings.Join(h.ops, "; "))
+	var kinds []string
+	for k := range h.kinds {
+		kinds = append(kinds, "hist/"+k)
+	}
+	sort.Strings(kinds)
+	kinds = append(kinds, extraKinds...)
+	nontrivial := h.kinds["accepted"] && h.kinds["bucket"]
+	line := o.Case(input, term, nontrivial, kinds...)
+	for _, f := range h.fails {
+		p := strings.SplitN(f, "\x00", 2)
+		o.Fail(p[0], line, input+" :: "+p[1])
+	}
+}
+
+// one explicit row: resolution, timestamp and resolution hash chosen by the caller
+func (h *hist) applyExact(res int, ts uint32, hash uint64, kind int) {
+	cur, snd := h.q.Times()
+	meta := &format.MetricMetaValue{MetricID: 3, EffectiveResolution: res}
+	h.nextID++
+	id := h.nextID
+	key := data_model.Key{Timestamp: ts, Metric: 3}
+	key.Tags[1] = id
+	h.q.Apply(kind, &key, hash, meta, 0)
+	idx, storedTs, n := h.q.Find(id)
+	e := &evInfo{id: id, ts: ts, res: uint32(res), accepted: n > 0, keyTs: storedTs, jumpsAt: h.jumps}
+	e.clampedTs = ts
+	if uint64(ts) > uint64(cur)+uint64(consts.FutureSlots) {
+		e.clampedTs = cur + uint32(consts.FutureSlots)
+		e.clamped = true
+	}
+	h.evs[id] = e
+	obs := "None"
+	if n > 0 {
+		obs = fmt.Sprintf("(Some (%d, %s))", idx, tsv(h.base, storedTs))
+		h.kinds["accepted"] = true
+		if d := (uint32(idx) - snd) % uint32(consts.QueueLen); d >= 120 {
+			h.kinds[fmt.Sprintf("slot-send+%d", d)] = true
+		}
+	}
+	h.ops = append(h.ops, fmt.Sprintf("Ap %d %s (MI 3 %d false) %d (A 0) %s %s", id, tsv(h.base, ts), res, hash, vu.B(kind <= 2), obs))
+	what := fmt.Sprintf("id=%d ts=%d res=%d hash=%d kind=%d cur=%d send=%d", id, ts, res, hash, kind, cur, snd)
+	if n > 1 {
+		h.fail("stored_in_two_slots", what)
+	}
+	if gap := int64(cur) - int64(snd) - consts.GapSlack; n == 0 && gap <= 0 {
+		h.fail("dropped_without_reason", what)
+	}
+}
+
+// Directed histories for the farthest ring slots (SendTime+120..127): the conveyor lags `lag` seconds behind the
+// clock (preprocessor stalled with an empty bucket waiting in the channel, or just drained), rows of a low
+// resolution are stamped with the allowed future second CurrentTime+futureSlots on a resolution boundary, and their
+// resolution hashes select the LAST spread seconds. Variant 0: shutdown at once (ShutdownFlusher + FlushAllData).
+// Variant 1: the preprocessor first takes the bucket that was waiting while the rows were filed, then shutdown.
+// Variant 2: the conveyor resumes for queue_len+ seconds (flush/receive every second), then shutdown.
+func runDirected(o *vu.Out, seed uint64, k int) {
+	r := vu.NewRng(seed*1000003 + 900000 + uint64(k))
+	resList := []int{60, 30, 20, 15}
+	lag := 1 + k%5 // CurrentTime - SendTime when the rows arrive; 5 = the maximum without a gap
+	res := resList[(k/5)%4]
+	variant := (k / 20) % 3
+	// cts = CurrentTime+futureSlots must be a multiple of res: SendTime = base-1, CurrentTime = base-1+lag
+	base := uint32(1700000000+r.Intn(1000000))/uint32(res)*uint32(res) - uint32(lag) - uint32(consts.FutureSlots) + 1
+	h := &hist{r: r, base: base, evs: map[int32]*evInfo{}, kinds: map[string]bool{}, lastT: -1, hw: [2]int32{5, 15},
+		stres: uint32(format.BuiltinMetricMetaIngestionStatus.EffectiveResolution)}
+	h.q = agent.NewVerifQueue(base, 5, 15, 1)
+	at := func(sec int64, ms int64) time.Time { return time.Unix(int64(base)+sec, ms*1000000) }
+	h.flush(at(0, 400)) // sends the (empty) bucket base-2: it now waits in the channel, SendTime = base-1
+	for j := int64(1); j < int64(lag); j++ {
+		h.flush(at(j, int64(r.Intn(1000)))) // channel full: nothing more is sent, CurrentTime advances
+	}
+	if variant == 0 && r.Bool() {
+		h.drain(true)
+	}
+	cur, _ := h.q.Times()
+	cts := cur + uint32(consts.FutureSlots)
+	hashFor := func(n int) uint64 { // smallest 32-bit hash whose fixed-point product selects spread second n
+		return (uint64(n)<<32 + uint64(res) - 1) / uint64(res)
+	}
+	for _, n := range []int{res - 1, res - 2, res - 3, res - 1, 0} {
+		ts := cts
+		if r.Chance(25) {
+			ts = cts + uint32(1+r.Intn(100)) // further in the future: clamped to the same second
+		}
+		hash := hashFor(n)
+		if r.Bool() {
+			hash |= r.U64() << 32
+		}
+		h.applyExact(res, ts, hash, r.Intn(6))
+	}
+	h.applyExact(res, cts-1, hashFor(res-1), 3)
+	switch variant {
+	case 1:
+		h.drain(true) // the bucket that waited in the channel while the rows were filed
+		h.flush(at(int64(lag), 500))
+		h.drain(true)
+	case 2:
+		for j := int64(lag); j < int64(lag)+int64(consts.QueueLen)+3; j++ {
+			h.drain(false)
+			h.flush(at(j, 500))
+		}
+	}
+	input := fmt.Sprintf("hist directed seed=%d k=%d base=%d clock=ok lag=%d res=%d variant=%d", seed, k, base, lag, res, variant)
+	h.finish(o, input, "hist/directed", fmt.Sprintf("hist/directed-lag%d", lag), fmt.Sprintf("hist/directed-variant%d", variant))
 }
 
 func pickBase(r *vu.Rng) uint32 {
@@ -418,49 +537,19 @@ func runHistory(o *vu.Out, seed uint64, i int) {
 			h.apply()
 		}
 	}
-	// shutdown as Agent.ShutdownFlusher + FlushAllData do
-	h.q.Stop()
-	h.stopped = true
-	h.ops = append(h.ops, "St")
-	h.flushAll()
-	nAcc := 0
-	for _, e := range h.evs {
-		if e.accepted {
-			nAcc++
-			if e.delivered != 1 {
-				h.fail("delivered_exactly_once", fmt.Sprintf("id=%d delivered %d times", e.id, e.delivered))
-			}
-		}
-	}
-	for idx := 0; idx < int(consts.QueueLen); idx++ {
-		if len(h.q.RingItems(idx)) != 0 {
-			h.fail("delivered_exactly_once", fmt.Sprintf("ring slot %d not empty after FlushAllData", idx))
-		}
-	}
 	clock := "ok"
 	if h.u32wrap {
 		clock = "u32wrap"
 	}
-	input := fmt.Sprintf("hist seed=%d i=%d base=%d clock=%s mode=%s hw=%d/%d ops=%d accepted=%d", seed, i, base, clock, modeName, h.hw[0], h.hw[1], len(h.ops), nAcc)
-	term := fmt.Sprintf("CHist %d %d %d %d [%s]", base, h.hw[0], h.hw[1], h.stres, strings.Join(h.ops, "; "))
-	var kinds []string
-	for k := range h.kinds {
-		kinds = append(kinds, "hist/"+k)
-	}
-	sort.Strings(kinds)
-	kinds = append(kinds, "hist/mode-"+modeName)
+	input := fmt.Sprintf("hist seed=%d i=%d base=%d clock=%s mode=%s hw=%d/%d", seed, i, base, clock, modeName, h.hw[0], h.hw[1])
+	extra := []string{"hist/mode-" + modeName}
 	if h.u32wrap {
-		kinds = append(kinds, "hist/clock-u32wrap")
+		extra = append(extra, "hist/clock-u32wrap")
 	}
 	if base < 128 {
-		kinds = append(kinds, "hist/clock-below-128")
+		extra = append(extra, "hist/clock-below-128")
 	}
-	nontrivial := h.kinds["accepted"] && h.kinds["bucket"]
-	line := o.Case(input, term, nontrivial, kinds...)
-	for _, f := range h.fails {
-		p := strings.SplitN(f, "\x00", 2)
-		o.Fail(p[0], line, input+" :: "+p[1])
-	}
+	h.finish(o, input, extra...)
 }
 
 // ---------- Agent.Map / OriginalMarshalAppend / two agents ----------
@@ -787,25 +876,16 @@ func findingU32Wrap(o *vu.Out) {
 	}
 	var bs []string
 	bucket := int64(-1)
-	rec := func() {
-		if t, items, ok := q.Drain(); ok {
-			bs = append(bs, fmt.Sprintf("(%s, %s)", tsv(now, t), itemsTerm(now, items)))
-			for _, it := range items {
-				if !it.Status && it.ID == 1 {
-					bucket = int64(t)
-				}
+	for _, b := range q.ShutdownAndFlushAllData() {
+		bs = append(bs, fmt.Sprintf("(%s, %s)", tsv(now, b.Time), itemsTerm(now, b.Items)))
+		for _, it := range b.Items {
+			if !it.Status && it.ID == 1 {
+				bucket = int64(b.Time)
 			}
 		}
 	}
-	for i := int64(0); i < consts.QueueLen; i++ {
-		if q.ChanLen() != 0 {
-			rec()
-		}
-		q.Step(false)
-	}
-	rec()
 	input := fmt.Sprintf("hist witness=F-C08a base=%d clock=u32wrap event ts=%d stored ts=%d bucket=%d", now, now, kts, bucket)
-	term := fmt.Sprintf("CHist %d 5 15 %d [Ap 1 (R 0) (MI 1 1 false) 0 (A 0) false %s; Fa [%s]]", now, format.BuiltinMetricMetaIngestionStatus.EffectiveResolution, obs, strings.Join(bs, "; "))
+	term := fmt.Sprintf("CHist %d 5 15 %d [Ap 1 (R 0) (MI 1 1 false) 0 (A 0) false %s; St; Fa [%s]]", now, format.BuiltinMetricMetaIngestionStatus.EffectiveResolution, obs, strings.Join(bs, "; "))
 	line := o.Case(input, term, true, "hist/witness-F-C08a")
 	if bucket >= 0 && bucket < int64(now) {
 		o.Finding("F-C08a", "reproduced")
@@ -823,6 +903,13 @@ func main() {
 	o := vu.NewOut(*out)
 	defer o.Close()
 	findingU32Wrap(o)
+	nd := 60 // lag 1..5 x resolution 60/30/20/15 x 3 variants
+	if *n < 60 {
+		nd = *n
+	}
+	for k := 0; k < nd+*n/20; k++ {
+		runDirected(o, *seed, k)
+	}
 	for i := 0; i < *n; i++ {
 		if i%4 == 3 {
 			runMap(o, *seed, i)
